@@ -12,8 +12,8 @@ from ..monitors.validator import ValidatorMonitor, scalar_energy
 
 ID = "C07"
 LEVEL = "exploration"
-TIERS = {"quick": {"shards": 16, "budget_s": 25, "windows": 1500, "split_cases": 40},
-         "thorough": {"shards": 16, "budget_s": 420, "windows": 60000, "split_cases": 2500}}
+TIERS = {"quick": {"shards": 16, "budget_s": 120, "windows": 1500, "split_cases": 40},
+         "thorough": {"shards": 16, "budget_s": 900, "windows": 60000, "split_cases": 2500}}
 RULE = ("AudioEnergyValidator.is_valid run on generated windows (widths 1/2/4 incl. extremes -2^(8w-1) and 2^(8w-1)-1, 1-4 "
         "channels, 1-64 samples, all selectors None/'any'/'mix'/'avg'/'average'/int incl. negative) x thresholds.  Oracle "
         "ENERGY (struct decode, Fraction mean square): (1) observed energy (recorded at auditok.signal.calculate_energy) "
